@@ -731,6 +731,74 @@ def run(ctx) -> None:
                         ctx.ok("R15f", inst)
     if n_f < 3:
         raise AnchorError(f"R15f: only {n_f} conclusive-mark pairs examined in CommandManager (floor 3)")
+    # (3) a cancelled command has had its Cancelled state recorded when cancel() was applied. Paths on which a command that
+    # `is_cancelled()` is given Completed/Failed exist in the executors (they finalize a cancelled command that is still
+    # registered and then fall into the completion mark); they are dead only as long as every cancellation finalizes and
+    # retires the request at once, so that no cancelled command is ever executed again.
+    latent = []
+    for callee_name in ("_execute_uod_command", "_execute_internal_command"):
+        k = prog.func(f"{CMQ}.{callee_name}")
+        gk = cfg_of(k)
+        ctests = [n for n in gk.nodes if n.kind == "test" and isinstance(n.ast, ast.Call) and call_attr(n.ast) == "is_cancelled"]
+        marks2 = [n for n in gk.nodes if n.ast is not None and any(call_attr(c) in ("mark_completed", "mark_failed") for c in n.calls())]
+        for t in ctests:
+            for m2 in marks2:
+                pth = gk.search([(t.id, "T")], lambda x, m2=m2: x.id == m2.id, follow_exc=False)
+                if pth is not None:
+                    latent.append((k, t, m2, pth))
+    cm_cls = prog.cls(CMQ)
+
+    def finalize_flag(call, target):
+        """The finalize argument of a call to `target` (a FuncInfo with a finalize parameter): ('true',) / ('default',) /
+        ('param', name) / ('other', text)."""
+        params = [a.arg for a in target.node.args.args]
+        fpos = [i for i, a in enumerate(target.node.args.args) if a.arg not in ("self",)][1:2]
+        # the finalize parameter: the boolean-default parameter after the request
+        defaults = dict(zip(params[len(params) - len(target.node.args.defaults):], target.node.args.defaults))
+        fname = next((p_ for p_ in params if p_ in defaults and isinstance(defaults[p_], ast.Constant) and isinstance(defaults[p_].value, bool)), None)
+        if fname is None:
+            return ("other", "no finalize parameter")
+        idx = params.index(fname) - 1
+        v = None
+        if len(call.args) > idx:
+            v = call.args[idx]
+        for kw_ in call.keywords:
+            if kw_.arg == fname:
+                v = kw_.value
+        if v is None:
+            return ("true",) if defaults[fname].value is True else ("other", f"default {defaults[fname].value}")
+        if isinstance(v, ast.Constant):
+            return ("true",) if v.value is True else ("other", norm(v))
+        if isinstance(v, ast.Name):
+            return ("param", v.id)
+        return ("other", norm(v))
+
+    def check_sites(target, depth=0):
+        bad = []
+        for fn in prog.iter_functions():
+            if "/test" in fn.module.path or ".test." in fn.module.name:
+                continue
+            for c in walk_no_nested(fn.node):
+                if isinstance(c, ast.Call) and call_attr(c) == target.name and isinstance(c.func, ast.Attribute):
+                    ff = finalize_flag(c, target)
+                    if ff[0] == "true":
+                        continue
+                    if ff[0] == "param" and depth < 2 and ff[1] in [a.arg for a in fn.node.args.args]:
+                        bad += check_sites(fn, depth + 1)
+                        continue
+                    bad.append((fn, c, ff))
+        return bad
+    if latent:
+        inst = "every cancellation finalizes at once, so the executors never see a cancelled command that is still registered"
+        bad = check_sites(cancel)
+        if not bad:
+            ctx.ok("R15f", inst, {"rule": "R15f", "latent_paths": len(latent)})
+        else:
+            fn, c, ff = bad[0]
+            k, t, m2, pth = latent[0]
+            ctx.fail("R15f", fn, c, inst, f"`{norm(c)}` cancels without finalizing ({' '.join(ff)}): the request stays in the executing list, "
+                     f"and in the next tick {k.short} finalizes the cancelled command and then reaches `{m2.text()[:50]}` - Cancelled followed "
+                     "by a second conclusive state, after which get_runlog() raises for the rest of the run", pth)
 
 
 def _mentions(expr: ast.AST, name: str) -> bool:
